@@ -421,6 +421,9 @@ theorem customBuildStep_ok {ev flat m srcdir sources combined cb ls ls'}
     (h : customBuildStep ev flat m srcdir sources combined cb ls = .ok ls') :
     ∃ cmd srcs outs, ls'.entries = addEntries ls.entries (customStmts cb cmd srcs outs combined) := by
   unfold customBuildStep at h
+  split at h
+  · cases h
+  unfold customBuildStepCore at h
   simp only [bind, Except.bind, pure, Except.pure] at h
   split at h
   · cases h
